@@ -504,7 +504,19 @@ func wgReplay(args []string) error {
 				// hook self-check: the logged natural order through the forced path must give the same outcome
 				re := buildWG(model, append([]string{}, run.roots...))
 				if re.outcome.key != run.outcome.key {
-					obs.HookConsistent = false
+					// either the forced-order copy of the loop is out of sync with the real loop, or the outcome depends on
+					// more than the root order (iteration order of a weight map): the latter shows as the forced path
+					// itself giving different outcomes for this one order - those are observations like any other
+					varies := false
+					for k := 0; k < 25 && !varies; k++ {
+						again := buildWG(model, append([]string{}, run.roots...))
+						varies = again.outcome.key != re.outcome.key
+						record(again.outcome)
+					}
+					record(re.outcome)
+					if !varies {
+						obs.HookConsistent = false
+					}
 				}
 			}
 		}
